@@ -28,6 +28,34 @@ def to_items(t) -> list:
     raise ValueError(k)
 
 
+_SHARED: dict = {}
+
+
+def to_items_shared(t) -> list:
+    """Like to_items, but a sub-tree is built ONCE per process: patterns that contain the same sub-pattern contain the same
+    operator OBJECT (a pattern is a value; the language modules reuse their sub-patterns the same way).  The object then
+    turns up in other surroundings from one case to the next and twice inside one tree."""
+    if t in _SHARED:
+        return _SHARED[t]
+    k = t[0]
+    if k == "atom":
+        r = [t[1]]
+    elif k == "seq":
+        r = to_items_shared(t[1]) + to_items_shared(t[2])
+    elif k == "alt":
+        r = [Union(to_items_shared(t[1]), to_items_shared(t[2]))]
+    elif k == "opt":
+        r = [Optional(to_items_shared(t[1]))]
+    elif k == "star":
+        r = [ZeroOrMore(to_items_shared(t[1]))]
+    elif k == "plus":
+        r = [OneOrMore(to_items_shared(t[1]))]
+    else:
+        raise ValueError(k)
+    _SHARED[t] = r
+    return r
+
+
 def show(t) -> str:
     k = t[0]
     if k == "atom":
